@@ -68,6 +68,7 @@ enum Act {
 enum Reply {
     Got { identity: usize, count: usize },
     GetFailed,
+    GetPanicked(String),
     Allocated { ptr: usize, len: usize, seed: u64, identity: usize },
     Dropped { identity: usize },
     Read { bad: Option<String> },
@@ -103,7 +104,20 @@ fn worker<const UP: bool>(
                 if guards.len() >= 3 {
                     return Reply::Nothing;
                 }
-                let g = match kind % 6 {
+                if kind % 7 == 6 {
+                    // a getter whose arena creation unwinds ("capacity overflow") while the pool's mutex is held: the
+                    // mutex is poisoned from then on, which must not change anything (with an idle arena available the
+                    // size is irrelevant and the call simply returns that arena)
+                    return match catch_unwind(AssertUnwindSafe(|| pool.get_with_size(usize::MAX))) {
+                        Ok(g) => {
+                            let r = Reply::Got { identity: ident(&g), count: g.stats().count() };
+                            guards.push(g);
+                            r
+                        }
+                        Err(p) => Reply::GetPanicked(panic_message(&p)),
+                    };
+                }
+                let g = match kind % 7 {
                     0 | 1 => Some(pool.get()),
                     2 => pool.try_get().ok(),
                     3 => Some(pool.get_with_size(64 + arg % 4000)),
@@ -232,6 +246,7 @@ fn run<const UP: bool>(recs: &[&[u8]], hdr: &[u8], want_desc: bool) -> Out {
                 s.spawn(move || worker::<UP>(t, pool_ref, arx, rtx, bl));
                 chans.push((atx, rrx));
             }
+            let mut releases_seen = ledger.lock().unwrap().releases;
             while rec_i < per_round && out.fails.is_empty() {
                 let r = Rec(recs[rec_i]);
                 rec_i += 1;
@@ -253,6 +268,16 @@ fn run<const UP: bool>(recs: &[&[u8]], hdr: &[u8], want_desc: bool) -> Out {
                 let idle_before = idle.len();
                 chans[t].0.send(act.clone()).unwrap();
                 let reply = chans[t].1.recv().unwrap();
+                {
+                    // nothing is returned to the base allocator while the pool is alive and not being reset
+                    let rel = ledger.lock().unwrap().releases;
+                    if rel != releases_seen {
+                        let m = format!("thread {t}: {act:?} released {} chunk(s) although the pool was neither reset nor dropped (allocations made through its guards are still reachable)", rel - releases_seen);
+                        releases_seen = rel;
+                        fail(&mut out, "C19/early-release", m.clone());
+                        fail(&mut out, "C05/early-release", m);
+                    }
+                }
                 match reply {
                     Reply::Got { identity, count } => {
                         let grants_after = ledger.lock().unwrap().grants;
@@ -297,6 +322,14 @@ fn run<const UP: bool>(recs: &[&[u8]], hdr: &[u8], want_desc: bool) -> Out {
                                     handover_verified = true;
                                 }
                             }
+                        }
+                    }
+                    Reply::GetPanicked(m) => {
+                        out.classes.insert("get_panicked");
+                        if idle_before > 0 {
+                            fail(&mut out, "C19/reuse-before-create", format!("thread {t}: {idle_before} idle arena(s) existed but get_with_size(usize::MAX) tried to create a new one ({m})"));
+                        } else if !m.contains("capacity overflow") {
+                            fail(&mut out, "panic/op", format!("thread {t}: get_with_size(usize::MAX) panicked with {m}"));
                         }
                     }
                     Reply::GetFailed => fail(&mut out, "C19/get-failed", format!("thread {t}: try_get* failed although the base allocator never refuses")),
@@ -422,7 +455,7 @@ impl Engine for PoolEngine {
         40
     }
     fn rule(&self) -> String {
-        "generator: header (2..6 threads, bump direction, final operation reset | reset_to_start | drop) + a schedule of up to 40 steps (thread t, action) with actions get / try_get / get_with_size / try_get_with_size / get_with_capacity, allocate a patterned block through one of the thread's guards, scoped workload through a guard, drop a guard, read back every block ever allocated; the driver hands one action at a time to one real OS thread (channel baton), so the interleaving of pool operations is exactly the generated one; after a pool reset a second round runs. oracle: model of live/idle arenas (identity = first chunk address), shared base-allocator ledger. non-trivial: >= 2 threads held guards simultaneously, a guard was dropped and its arena re-issued to another thread, and data written before the hand-over was verified after it by a different thread; distinct by hash of the schedule".into()
+        "generator: header (2..6 threads, bump direction, final operation reset | reset_to_start | drop) + a schedule of up to 40 steps (thread t, action) with actions get / try_get / get_with_size / try_get_with_size / get_with_capacity / get_with_size(usize::MAX) (which unwinds with the pool's mutex held when it has to create an arena: the mutex is poisoned afterwards), allocate a patterned block through one of the thread's guards, scoped workload through a guard, drop a guard, read back every block ever allocated; the driver hands one action at a time to one real OS thread (channel baton), so the interleaving of pool operations is exactly the generated one; after a pool reset a second round runs. oracle: model of live/idle arenas (identity = first chunk address), shared base-allocator ledger. non-trivial: >= 2 threads held guards simultaneously, a guard was dropped and its arena re-issued to another thread, and data written before the hand-over was verified after it by a different thread; distinct by hash of the schedule".into()
     }
     fn required_classes(&self) -> Vec<(&'static str, f64)> {
         vec![("reused", 0.3), ("handover_verified", 0.1), ("two_threads_live", 0.3)]
